@@ -122,8 +122,13 @@ Definition tolds (tr : list event) : list nat := flat_map ev_told tr.
 Definition all_answered (tr : list event) : bool :=
   forallb (fun p => memb (snd p) (map fst (delivers tr)) && memb (snd p) (tolds tr)) (submitted tr).
 
+(* every value the API accepted (204/202) was handed to the write queue; nothing leaves the queue on the side *)
+Definition is_side_exit (e : event) : bool := match e with ApiUnqueued _ | Discard _ => true | _ => false end.
+Definition all_queued (tr : list event) : bool := negb (existsb is_side_exit tr).
+
 (* bit mask of the clauses a trace contradicts (0 = none) *)
 Definition spec_code (cap : nat) (drained : bool) (tr : list event) : nat :=
   (if reads_exclusive tr then 0 else 1) + (if writes_exclusive tr then 0 else 2) + (if order_ok tr then 0 else 4)
   + (if drops_ok cap tr then 0 else 8) + (if notify_ok tr then 0 else 16) + (if results_ok tr then 0 else 32)
-  + (if drained && negb (all_answered tr) then 64 else 0) + (if told_ok tr then 0 else 128).
+  + (if drained && negb (all_answered tr) then 64 else 0) + (if told_ok tr then 0 else 128)
+  + (if all_queued tr then 0 else 256).
